@@ -122,7 +122,9 @@ class DBusMessage :
                     hval = marshal.ObjectPath(hval)
                 elif attr_name == 'signature':
                     hval = marshal.Signature(hval)
-                elif attr_name == 'unix_fds':
+                elif attr_name in ('unix_fds', 'reply_serial'):
+                    # a parsed message holds these as plain ints: without
+                    # the wrapper the variant would be typed 'i' or 'x'
                     hval = marshal.UInt32(hval)
 
                 self.headers.append([code, hval])
